@@ -32,6 +32,7 @@ import (
 	"time"
 
 	"github.com/risor-io/risor/compiler"
+	modMath "github.com/risor-io/risor/modules/math"
 	"github.com/risor-io/risor/object"
 	"github.com/risor-io/risor/parser"
 	"github.com/risor-io/risor/vm"
@@ -57,7 +58,7 @@ type history struct {
 // runs that did not stop after their context was cancelled: each leaves a goroutine spinning
 var hangs int
 
-var globalNames = []string{"getg", "addg", "boom", "gate", "spin"}
+var globalNames = []string{"getg", "addg", "boom", "gate", "spin", "math"}
 
 // one world = one VM with its host global, its contexts and the bookkeeping of armed watchers
 type world struct {
@@ -175,6 +176,7 @@ func (w *world) globals() map[string]any {
 		return object.NewInt(0)
 	}
 	return map[string]any{
+		"math": modMath.Module(), // a module given as a global: `import math` must find it in every invocation
 		"getg": object.NewBuiltin("getg", func(ctx context.Context, args ...object.Object) object.Object {
 			return object.NewInt(w.g)
 		}),
@@ -219,6 +221,8 @@ func classify(v object.Object, err error, ctx context.Context) string {
 			return "E bounds"
 		case strings.HasPrefix(m, "index error"):
 			return "E runtime"
+		case strings.Contains(m, "imports are disabled"):
+			return "E import"
 		case strings.Contains(m, "already running"):
 			return "BUSY"
 		}
